@@ -17,6 +17,10 @@ def _iter_ty_ok(ty):
     ty = ty.strip()
     if any(x in ty for x in INFINITE_ITER):
         return False
+    # module-qualified iterator types (serde_json::map::Iter<'_>, btree_map::IntoValues<..>)
+    head = ty.split("<", 1)[0]
+    if "::" in head:
+        ty = head.split("::")[-1] + ("<" + ty.split("<", 1)[1] if "<" in ty else "<>")
     return ty.startswith(FINITE_ITER_HEADS) or ty.startswith("&mut ") and _iter_ty_ok(ty[5:])
 
 
